@@ -274,6 +274,8 @@ impl AbstractTree for BlobTree {
 
         // IMPORTANT: Write lock so no compaction is running, otherwise it would
         // try to install its result into a version that does not contain its input tables anymore
+        #[cfg(feature = "verif")]
+        crate::verif::probe_write(&self.index.0.major_compaction_lock, "blob_tree/mod.rs:major_compaction_lock.write#clear");
         #[expect(clippy::expect_used, reason = "lock is expected to not be poisoned")]
         let _lock = self
             .index
